@@ -742,7 +742,18 @@ func run(c *lib.Ctx, cs caseT) {
 						}
 					}
 				}
-				// DESCRIBE reflects the new schema
+				// DESCRIBE reflects the new schema: a column reported NOT NULL holds no NULL
+				for ci, ac := range after.cols {
+					if !ac.Null {
+						for _, row := range after.rows {
+							if row[ci] == nil {
+								fails = append(fails, fail{o.Kind + "/null-stored-in-not-null-column",
+									fmt.Sprintf("after %q column %s is NOT NULL in DESCRIBE but a row holds NULL", o.SQL, cname(ac.ID))})
+								break
+							}
+						}
+					}
+				}
 				switch o.Kind {
 				case "add":
 					if i := findCol(after.cols, o.Col.ID); i < 0 || after.cols[i].sqlDef() != o.Col.sqlDef() {
